@@ -141,7 +141,7 @@ PROPS = {
                  "succeed, fail silently or raise their own error, against parameter lists of 0..5 items of every data type (compatible, "
                  "missing, surplus, wrong type, suffixed, unknown suffix, unknown mnemonic) with random 488.2 white space around the commas, "
                  "malformed fragments and trailing commas, in 1..3-unit messages with exact-fit and roomy input buffers, on an empty queue of 64 entries "
-                 "or (a fifth of the cases) a queue of 1..3 entries that is already full when the message arrives; return value of SCPI_Input for calls "
+                 "or (a fifth of the cases) a queue of 1..3 entries that is already full when the message arrives, one case in forty a list of 250..400 items; return value of SCPI_Input for calls "
                  "carrying several messages, incomplete tails and overruns",
         "level_note": "delivered values are compared exactly except where the documentation leaves them open (real number to an integer/bool reader, negative to an unsigned reader); a suffixed number given to Bool/Choice accepts -104 or -138; a non-decimal number is never given to a Bool reader (left open)",
         "design_ref": "DESIGN.md section 4, C05",
@@ -152,7 +152,7 @@ PROPS = {
     "C06": {
         "engine": "rapidcheck",
         "technique": "reference-model comparison: independent renderer of every result type and of the response framing, byte-exact against captured write()/flush() calls, over rapidcheck-generated handler scripts and messages",
-        "level": "random tables of query handlers emitting 0..4 items of every result type that succeed, fail silently or raise their own error "
+        "level": "random tables of query handlers emitting 0..4 items of every result type (one array item in 25 with 250..600 elements) that succeed, fail silently or raise their own error "
                  "before/between/after items, command handlers, undefined headers and ill-typed parameters, in messages of 1..6 units, "
                  "optionally after a previous message on the same context; output bytes, flush count and write/flush order compared",
         "level_note": "two readings of 'responds' are accepted (a successful query that emits nothing is or is not an empty response unit); "
@@ -178,7 +178,8 @@ PROPS = {
         "engine": "rapidcheck + enumeration",
         "technique": "grammar-based generation of 488.2 numeric literals with a structural oracle (expected value computed from the generator's own structure: correctly rounded strtod/strtof of the canonical text, exact integers, golden unit table)",
         "level": "random decimal literals (1..25 digits, every sign/point/exponent/white-space placement, exponents up to +-400), literals constructed at the "
-                 "rounding boundaries of the target type (exact float/double midpoints, as written or moved off the tie up to 14 digits further on), in-range "
+                 "rounding boundaries of the target type (exact float/double midpoints, as written or moved off the tie up to 14 digits further on), mantissas of up to 200 digits, "
+                 "a quarter of the literals decoded after an out-of-range literal on the same context, in-range "
                  "integer literals for the four integer widths, #H/#Q/#B literals up to the type width, literals with every suffix of the "
                  "golden unit table in random case with 0..2 blanks, all special mnemonics and near misses, delivered as 'CMD <literal>' to "
                  "Int32/UInt32/Int64/UInt64/Float/Double/Number readers; values compared as bit patterns; plus the full unit table x case patterns",
@@ -195,7 +196,8 @@ PROPS = {
         "technique": "reference-model comparison: independent backtracking matcher for the pattern language against matchCommand/SCPI_Match and SCPI_IsCmd/SCPI_CommandNumbers on a live context",
         "level": "all 984 patterns of 1..3 distinct keywords (mandatory/optional, plain/numeric, with/without ?) against all headers of 1..3 "
                  "(quick) / 1..4 (thorough) mnemonics over 18 forms x leading colon x ?, plus random patterns of up to 4 keywords over a "
-                 "12-name pool and the 61 shipped patterns against spellings and near misses (random case) through the live parser",
+                 "12-name pool and the 61 shipped patterns against spellings and near misses (random case) through the live parser, written in full and "
+                 "as the last keyword of a second unit of a compound message (relative form)",
         "level_note": "headers are lexically valid mnemonics with at most 9 suffix digits; ambiguous (pattern, header) pairs (more than one "
                       "reference matching) are skipped and counted; acceptance and numbers[] (sentinel pre-filled, canary after the end) are compared",
         "design_ref": "DESIGN.md section 4, C03",
@@ -251,7 +253,8 @@ PROPS = {
         "technique": "model-based stateful testing: reference bounded deque compared after every operation; allocation failures injected through link-time wrapping of strndup; ownership tracked through wrapped strndup/free plus ASan",
         "level": "every operation sequence up to length 6 (quick) / 8 (thorough) over a 7-letter alphabet x capacities 1..4 x failure of every "
                  "single text duplication, plus random histories of up to 300 and up to 10^4 operations with arbitrary 7-bit texts of 0..300 "
-                 "characters, in the malloc build and the build without device-dependent information",
+                 "characters, plus one scheduled history of 70 k (quick) / 400 k (thorough) pushes per capacity in {1..7, 12, 16, 17}, "
+                 "in the malloc build and the build without device-dependent information",
         "level_note": "texts popped through SCPI_ErrorPop are released by the harness exactly as SCPI_SystemErrorNextQ does; leak detection = "
                       "every pointer returned by the wrapped strndup must reach the wrapped free by the end of the case (LeakSanitizer at exit as a backstop)",
         "design_ref": "DESIGN.md section 4, C10",
